@@ -51,6 +51,10 @@ pub fn flat(attr: TokenStream, item: TokenStream) -> TokenStream {
             if ctx.info.tag_type.is_none() {
                 ctx.info.tag_type = Some(Ident::new("u8", Span::call_site()));
             }
+            assert!(
+                !ctx.info.portable || ctx.info.tag_type.as_ref().unwrap() == "u8",
+                "`portable` enum requires `tag_type = \"u8\"`: a wider tag has native alignment and byte order",
+            );
             if items::enum_::is_c_like(&input) {
                 ctx.c_like_enum = Some(true);
                 ctx.idents.tag = Some(input.ident.clone());
